@@ -2,6 +2,7 @@ package main
 
 import (
 	"fmt"
+	"os"
 	"go/token"
 	"go/types"
 	"strings"
@@ -10,7 +11,45 @@ import (
 )
 
 // verifyFunction generates the obligations of one function under contract.
-func (e *Engine) verifyFunction(fc *FuncContract, mode *Mode) (vc *VC) {
+// verifyFunction generates the obligations of one function under contract. Automatic loop-frame
+// candidates are settled first (Houdini): candidates whose preservation cannot be proved are weakened
+// or dropped and the function is re-generated, so only proved candidates are ever assumed.
+func (e *Engine) verifyFunction(fc *FuncContract, mode *Mode) *VC {
+	auto := map[string]int{}
+	for round := 0; round < 6; round++ {
+		vc := e.genFunction(fc, mode, auto)
+		var autos []*Obligation
+		for _, o := range vc.obls {
+			if o.Kind == "auto-frame" {
+				autos = append(autos, o)
+			}
+		}
+		if len(autos) == 0 {
+			return vc
+		}
+		dir := scratchDir()
+		sub := &VC{}
+		*sub = *vc
+		sub.obls = autos
+		solveAll([]*VC{sub}, dir, 8, 0, false)
+		os.RemoveAll(dir)
+		failedIDs := map[string]bool{}
+		for _, o := range autos {
+			if o.Result != "unsat" {
+				failedIDs[o.AutoID] = true
+			}
+		}
+		if len(failedIDs) == 0 {
+			return vc
+		}
+		for id := range failedIDs {
+			auto[id]++
+		}
+	}
+	return e.genFunction(fc, mode, map[string]int{"*": 2})
+}
+
+func (e *Engine) genFunction(fc *FuncContract, mode *Mode, auto map[string]int) (vc *VC) {
 	vc = newVC(e, fc.Key)
 	fn := e.findFunction(fc.Key)
 	if fn == nil {
@@ -24,7 +63,7 @@ func (e *Engine) verifyFunction(fc *FuncContract, mode *Mode) (vc *VC) {
 			}
 		}
 	}()
-	fr := &Frame{vc: vc, fn: fn, env: map[ssa.Value]*Term{}, tuples: map[ssa.Value][]*Term{}, fc: fc, mode: mode, lets: map[string]Binding{}}
+	fr := &Frame{vc: vc, fn: fn, env: map[ssa.Value]*Term{}, tuples: map[ssa.Value][]*Term{}, fc: fc, mode: mode, lets: map[string]Binding{}, autoLevel: auto}
 	fr.topProps = fc.props()
 	st := &State{guard: tTrue, st: map[string]*Term{}}
 	vc.wm(st)
